@@ -60,6 +60,9 @@ structure Thread where
   att : Nat := 0
   /-- boolean returned by the last completed TryToAcquire -/
   ret : Option Bool := none
+  /-- between the read and the write of a non-LOCKed read-modify-write instruction on memory: the
+  value that was read -/
+  mid : Option Nat := none
   /-- critical-section local: the value read from the protected counter, not yet written back -/
   loc : Option Nat := none
   deriving DecidableEq, Repr, Hashable, Inhabited
@@ -137,6 +140,37 @@ def asmStep (cfg : Config) (sh : Shared) (t : Thread) (m : Method) (rpc pc : Nat
     (hv : Option (Nat × Nat × Nat × Nat × Bool)) : Shared × Thread :=
   let next (t : Thread) : Thread := { t with ph := .asm m rpc (pc + 1) }
   let goto (t : Thread) (n : Nat) : Thread := { t with ph := .asm m rpc n }
+  -- read-modify-write of a 32-bit destination: `f old = some (new, effect on flags/registers)`.
+  -- A register destination, or a LOCKed memory destination, is one step; a memory destination
+  -- without LOCK is two steps (read into `mid`; then compute and write), so that other threads can
+  -- run in between.
+  let rmw (lk : Bool) (dst : Operand) (f : Nat → Option (Nat × (Thread → Thread))) : Shared × Thread :=
+    let finish (v : Nat) (t : Thread) : Shared × Thread :=
+      match f v with
+      | none => faulted sh t
+      | some (v', eff) =>
+        match store32 cfg sh.lock t dst v' with
+        | none => faulted sh t
+        | some (l', t') => ({ sh with lock := l' }, next (eff { t' with mid := none }))
+    match dst with
+    | .mem _ _ =>
+      if lk then
+        match load32 cfg sh.lock t dst with
+        | none => faulted sh t
+        | some v => finish v t
+      else
+        match t.mid with
+        | none =>
+          match load32 cfg sh.lock t dst with
+          | none => faulted sh t
+          | some v => (sh, { t with mid := some v })
+        | some v => finish v t
+    | .reg _ =>
+      if lk then faulted sh t   -- LOCK with a register destination is #UD
+      else match load32 cfg sh.lock t dst with
+        | none => faulted sh t
+        | some v => finish v t
+    | _ => faulted sh t
   match acquireAsm[pc]? with
   | none => faulted sh t
   | some ins =>
@@ -174,14 +208,20 @@ def asmStep (cfg : Config) (sh : Shared) (t : Thread) (m : Method) (rpc pc : Nat
       match load32 cfg sh.lock t a, load32 cfg sh.lock t b with
       | some va, some vb => (sh, next { t with zf := va == vb })
       | _, _ => faulted sh t
-    | .decl a =>
-      match load32 cfg sh.lock t a with
-      | none => faulted sh t
-      | some v =>
+    | .xorl lk a b =>
+      rmw lk b fun v => match load32 cfg sh.lock t a with
+        | none => none
+        | some va => some (v ^^^ va, fun t => { t with zf := (v ^^^ va) == 0 })
+    | .decl lk a =>
+      rmw lk a fun v =>
         let v' := (v + (two32 - 1)) % two32
-        match store32 cfg sh.lock t a v' with
-        | none => faulted sh t
-        | some (l', t') => ({ sh with lock := l' }, next { t' with zf := v' == 0 })
+        some (v', fun t => { t with zf := v' == 0 })
+    | .cmpxchgl lk src dst =>
+      rmw lk dst fun v => match load32 cfg sh.lock t src with
+        | none => none
+        | some vs =>
+          if t.ax % two32 = v then some (vs, fun t => { t with zf := true })
+          else some (v, fun t => { t with zf := false, ax := v })
     | .jz n => (sh, if t.zf then goto t n else next t)
     | .jnz n => (sh, if t.zf then next t else goto t n)
     | .jmp n => (sh, goto t n)
